@@ -1045,14 +1045,16 @@ def race_case(rng, cmd):
     victims = sorted({rng.choice(pool) for _ in range(rng.randint(1, 4))} - {trigger})
     if not victims:
         victims = [r for r in rels if r != trigger][:1]
-    return {"files": files, "config": config, "hook": hook, "trigger": trigger, "victims": victims, "cmd": cmd}
+    # a command walks the tree more than once (looking for REUSE.toml files when the project is loaded, then for the covered
+    # files): the race happens in the nth walk / at the nth question about the trigger
+    return {"files": files, "config": config, "hook": hook, "trigger": trigger, "victims": victims, "cmd": cmd, "nth": rng.choice([1, 2, 2, 3])}
 
 
 class WalkRaceStream(Stream):
     name = "walkrace"
     rule = ("seeded trees (2-5 directories, nested, 3-16 files, with none / REUSE.toml / nested REUSE.toml / dep5) from which 1-4 files "
             "and directories vanish WHILE reuse walks them: either as soon as their directory has been listed (os.walk hands out names "
-            "that no longer exist) or at the first question the walk asks its VCS strategy about a chosen sibling (quick 105 / thorough "
+            "that no longer exist) or at a question the walk asks its VCS strategy about a chosen sibling, in the first, second or third walk of the command (project loading looks for REUSE.toml files, then the covered files are collected) (quick 105 / thorough "
             "1400 runs), through lint, lint --json, lint --lines, lint-file, spdx, annotate --recursive, download --all; oracle only: no "
             "traceback, exit status 0 or 1 (the configuration is valid, so never a usage error), and with lint --json every file that did not vanish is still reported (report or "
             "read error, not both), a vanished one is a read error or absent")
@@ -1098,19 +1100,26 @@ class WalkRaceStream(Stream):
 
             orig_walk, orig_ignored = os.walk, rv.VCSStrategyNone.is_ignored
 
+            count = {"walks": 0, "questions": 0}
+            nth = case.get("nth", 1)
+
             def walk(top, *a, **kw):
+                count["walks"] += 1
+                mine = count["walks"] == nth
                 for dp, dn, fn in orig_walk(top, *a, **kw):
                     rel_dir = os.path.relpath(os.path.realpath(dp), real_root)
                     for v in victims:
-                        if os.path.dirname(v) == ("" if rel_dir == "." else rel_dir):
+                        if mine and os.path.dirname(v) == ("" if rel_dir == "." else rel_dir):
                             remove(v)  # listed a moment ago, gone before anybody looks at it
                     yield dp, dn, fn
 
             def is_ignored(self_, path):
                 rel = os.path.relpath(os.path.realpath(os.path.join(real_root, str(path))), real_root)
                 if rel == case["trigger"]:
-                    for v in victims:
-                        remove(v)
+                    count["questions"] += 1
+                    if count["questions"] == nth:
+                        for v in victims:
+                            remove(v)
                 return orig_ignored(self_, path)
 
             args = RACE_COMMANDS[case["cmd"]] or ["lint-file"] + sorted(files)
@@ -1176,7 +1185,7 @@ class WalkRaceStream(Stream):
         return None
 
     def nontrivial(self, case, impl_out):
-        return (case["cmd"], case["hook"], case["config"], impl_out.split(" ")[0], len(case["victims"]))
+        return (case["cmd"], case["hook"], case.get("nth"), case["config"], impl_out.split(" ")[0], len(case["victims"]))
 
 
 # --------------------------------------------------------------------------
